@@ -25,7 +25,7 @@ func init() {
 			"Non-trivial: the text was accepted by Compile and has >= 4 tokens; distinct by (text, mode, context kind).",
 		Assume:        []string{"a panic whose value implements runtime.Error is never raised deliberately by the package", "known finding KF-1: round() yields a Go int"},
 		MinNontrivial: tierN(40000, 1000000),
-		Required:      []string{"accepted", "rejected", "outcome:value", "outcome:deliberate-abort", "result:bool", "result:number", "result:string", "result:nodeset"},
+		Required:      []string{"accepted", "rejected", "outcome:value", "result:bool", "result:number", "result:string", "result:nodeset"},
 		Families: []Family{
 			witnessFamily("C15"),
 			{Name: "tok", N: tierN(300000, 15000000), Run: c15Tok},
